@@ -51,6 +51,11 @@ REASM = {'test': 'TestVerifReasm', 'comp': 'reasm', 'quick': {'VERIF_N': 300, 'V
 CODEC = {'test': 'TestVerifCodec', 'comp': 'codec', 'quick': {'VERIF_N': 1500}, 'thorough': {'VERIF_N': 25000},
          'seeds': {'quick': 1, 'thorough': 4}}
 
+# stream API layer (WriteSCTP / packetize / sendPayloadData incl. blocking-write mode, Close, ReadSCTP / SetReadDeadline) on one
+# real Association driven single-threaded: L0 model Sapi (on top of Sender + Reasm) replays every line; predicates tagged [C18] / [C06]
+SAPI = {'test': 'TestVerifStreamAPI', 'comp': 'sa', 'corpus_glob': 'sapi_*.ops', 'quick': {'VERIF_N': 120, 'VERIF_OPS': 150},
+        'thorough': {'VERIF_N': 600, 'VERIF_OPS': 220}, 'seeds': {'quick': 1, 'thorough': 8}}
+
 PROPS = {
     'C05': {'jobs': [RQ]},
     'C16': {'jobs': [GENF, RQ, ASND]},
@@ -60,7 +65,7 @@ PROPS = {
     'C11': {'jobs': [REASM], 'assumptions': [
         'sum of len(userData) over all chunks ever pushed < 2^63 (uint64 counter / int conversion in subtractNumBytes)']},
     'C02': {'jobs': [E2E_T], 'rule': E2E_RULE},
-    'C06': {'jobs': [E2E_PR, E2E_T, E2E_API, REASM, ASND], 'rule': E2E_RULE},
+    'C06': {'jobs': [SAPI, E2E_PR, E2E_T, E2E_API, REASM, ASND], 'rule': E2E_RULE},
     'C07': {'jobs': [E2E_PR], 'rule': E2E_RULE},
     'C08': {'jobs': [E2E_SD], 'rule': E2E_RULE},
     'C04': {'jobs': [HSD, E2E_HS, E2E_T], 'assumptions': [
@@ -80,7 +85,7 @@ PROPS = {
         'per-stream theorems carry the D9 hypothesis (a stream stays in the association table while it has data outstanding) and assume no uint64 wrap of bufferedAmount (ghost flag wrapBuf)',
         'callback-unlocked is decided on translator-extracted control-flow paths of onBufferReleased and the statements around its call site (syntactic), plus a dynamic TryLock probe in the harness',
     ]},
-    'C18': {'jobs': [E2E_API, E2E_SD], 'rule': E2E_RULE},
+    'C18': {'jobs': [SAPI, E2E_API, E2E_SD], 'rule': E2E_RULE},
     'C09': {'jobs': [E2E_TD, E2E_SD, E2E_HS], 'rule': E2E_RULE},
     'C19': {'jobs': [RTO, TIMER], 'assumptions': [
         'float64 arithmetic of rtoManager / calculateNextTimeout is proved over Rat; the Float instance is compared with the Go code bit for bit on sampled sequences',
